@@ -175,7 +175,9 @@ func (e *Explorer) execute(prefix []int, tracing bool, recorded []string) (c *Ct
 	c = &Ctx{Tier: e.Tier, prefix: prefix, tracing: tracing, recorded: recorded}
 	defer func() {
 		if r := recover(); r != nil {
-			if he, ok := r.(HarnessError); ok {
+			if dp, ok := r.(divergedPlain); ok {
+				herr = divergedPlain{fmt.Sprintf("%s [scenario %s prefix %v]", dp.msg, e.scen.Name, prefix)}
+			} else if he, ok := r.(HarnessError); ok {
 				herr = HarnessError{fmt.Sprintf("%s [scenario %s prefix %v]", he.Msg, e.scen.Name, prefix)}
 			} else if st := string(debug.Stack()); libraryFrameAbovePanic(st) {
 				// the panic was raised inside the library under test (on the goroutine that called it): that is a verdict about the
